@@ -845,7 +845,7 @@ def translate_head(repo):
                     and col.func.attr in ("removesuffix", "strip") and len(col.args) == 1 and isinstance(col.args[0], ast.Constant)
                     and isinstance(col.args[0].value, str)):
                 raise TranslatorRejected(APOP, a.lineno, f"column derivation {ast.unparse(col)}")
-            info = {"pattern": t.left.value, "mode": col.func.attr, "arg": col.args[0].value}
+            info.update({"pattern": t.left.value, "mode": col.func.attr, "arg": col.args[0].value})
             idx_over = i
         elif isinstance(st, ast.If) and ast.unparse(st.test).startswith("country_code =="):
             if not (len(st.body) == 1 and isinstance(st.body[0], ast.Assign) and ast.unparse(st.body[0].targets[0]) == "country_code"
